@@ -86,6 +86,8 @@ impl Writer {
             FileStateTracker::set_block_unlocked(block.id as usize);
             let mut sealed = block.clone();
             sealed.used = *cur;
+            #[cfg(walrus_verif)]
+            crate::wal::verif::io_gate("flush", &sealed.file_path, "")?;
             sealed.mmap.flush()?;
             let _ = self.reader.append_block_to_chain(&self.col, sealed);
             debug_print!("[writer] appended sealed block to chain: col={}", self.col);
@@ -118,6 +120,8 @@ impl Writer {
         match self.fsync_schedule {
             FsyncSchedule::SyncEach => {
                 // Immediate mmap flush, skip background flusher
+                #[cfg(walrus_verif)]
+                crate::wal::verif::io_gate("flush", &block.file_path, "")?;
                 block.mmap.flush()?;
                 debug_print!(
                     "[writer] immediate fsync: col={}, block_id={}",
@@ -247,6 +251,8 @@ impl Writer {
                 FileStateTracker::set_block_unlocked(block.id as usize);
                 let mut sealed = block.clone();
                 sealed.used = planning_offset;
+                #[cfg(walrus_verif)]
+                crate::wal::verif::io_gate("flush", &sealed.file_path, "")?;
                 sealed.mmap.flush()?;
                 let _ = self.reader.append_block_to_chain(&self.col, sealed);
 
@@ -336,11 +342,19 @@ impl Writer {
         let mut fsynced = HashSet::new();
         for (blk, _, _) in write_plan.iter() {
             if !fsynced.contains(&blk.file_path) {
+                #[cfg(walrus_verif)]
+                crate::wal::verif::io_gate("flush", &blk.file_path, "")?;
                 blk.mmap.flush()?;
                 fsynced.insert(blk.file_path.clone());
             }
         }
 
+        #[cfg(walrus_verif)]
+        if let crate::wal::verif::Action::Die =
+            crate::wal::verif::io_event("batch_publish", &self.col, "", planning_offset, &[])
+        {
+            crate::wal::verif::die()
+        }
         // NOW update the writer's offset to make data visible to readers
         *cur_offset = planning_offset;
 
@@ -425,6 +439,30 @@ impl Writer {
 
             buffers.push(combined);
 
+            #[cfg(walrus_verif)]
+            match crate::wal::verif::io_event(
+                "batch_sqe",
+                &blk.file_path,
+                "",
+                file_offset,
+                buffers.last().map(|b| b.as_slice()).unwrap_or(&[]),
+            ) {
+                crate::wal::verif::Action::Die => {
+                    // The process is killed while only the writes queued so far have been
+                    // carried out by the kernel.
+                    let pushed = buffers.len() - 1;
+                    if pushed > 0 {
+                        let _ = ring.submit_and_wait(pushed);
+                    }
+                    crate::wal::verif::die()
+                }
+                crate::wal::verif::Action::Fail(e) => crate::wal::verif::set_cqe_subst(*data_idx, -e),
+                crate::wal::verif::Action::Short(n) => {
+                    crate::wal::verif::set_cqe_subst(*data_idx, n as i32)
+                }
+                crate::wal::verif::Action::Go => {}
+            }
+
             unsafe {
                 ring.submission().push(&write_op).map_err(|e| {
                     std::io::Error::new(
@@ -440,6 +478,20 @@ impl Writer {
             write_plan.len()
         );
 
+        #[cfg(walrus_verif)]
+        match crate::wal::verif::io_event("batch_submit", &self.col, "", 0, &[]) {
+            crate::wal::verif::Action::Die => crate::wal::verif::die(),
+            crate::wal::verif::Action::Fail(_) => {
+                // Make the submission really fail (the engine's own error path runs): the ring
+                // descriptor is replaced by one that io_uring_enter rejects.
+                if let Ok(devnull) = std::fs::File::open("/dev/null") {
+                    unsafe {
+                        libc::dup2(devnull.as_raw_fd(), ring.as_raw_fd());
+                    }
+                }
+            }
+            _ => {}
+        }
         // Phase 3: Atomic submission
         match ring.submit_and_wait(write_plan.len()) {
             Ok(_) => {
@@ -449,6 +501,8 @@ impl Writer {
                         let data_idx = cqe.user_data() as usize;
                         let expected_bytes = buffers.get(data_idx).map(|b| b.len()).unwrap_or(0);
                         let result = cqe.result();
+                        #[cfg(walrus_verif)]
+                        let result = crate::wal::verif::take_cqe_subst(data_idx, result);
 
                         if result < 0 {
                             all_success = false;
@@ -500,11 +554,19 @@ impl Writer {
                 let mut fsynced = HashSet::new();
                 for (blk, _, _) in write_plan.iter() {
                     if !fsynced.contains(&blk.file_path) {
+                        #[cfg(walrus_verif)]
+                        crate::wal::verif::io_gate("flush", &blk.file_path, "")?;
                         blk.mmap.flush()?;
                         fsynced.insert(blk.file_path.clone());
                     }
                 }
 
+                #[cfg(walrus_verif)]
+                if let crate::wal::verif::Action::Die =
+                    crate::wal::verif::io_event("batch_publish", &self.col, "", planning_offset, &[])
+                {
+                    crate::wal::verif::die()
+                }
                 // NOW update the writer's offset to make data visible to readers
                 *cur_offset = planning_offset;
 
